@@ -269,6 +269,7 @@ class Executor:
         self.consts_seen = {}
         self._divmod = {}
         self._consts = {}
+        self._clo_ord = {}
         self._keep_locals = False
         self._ax_done = {}
         self._ipdom = {}
@@ -1151,8 +1152,8 @@ class Executor:
         if head.startswith('{coroutine@') or head.startswith('{closure@') or head.startswith('{async'):
             ty = re.sub(r' \(#\d+\)', '', head)
             t = Tree(dict(enumerate(vals)), None, ty, meta=frame.fn.name)
-            if head.startswith('{closure@') and rv.c:
-                t.meta = (frame.fn.name, tuple(rv.c))
+            if head.startswith('{closure@'):
+                t.meta = (frame.fn.name, tuple(rv.c or ()), self._closure_ordinal(frame, ty))
             if head.startswith('{coroutine@'):
                 t.f['discr'] = Sc(z3.IntVal(0), 'u32')
             return t
@@ -2054,6 +2055,24 @@ class Executor:
         self.new_frame(st, fn, [fv] + list(args), dest=dest, ret_bb=target)
         return None
 
+    def _closure_ordinal(self, frame, ty):
+        """index of the closure aggregate being executed among the aggregates of the same closure type in the
+        creating function (block order, statement order)"""
+        fn = frame.fn
+        key = (fn.name, ty)
+        tab = self._clo_ord.get(key)
+        if tab is None:
+            tab = []
+            for b in sorted(fn.blocks):
+                blk = fn.blocks[b]
+                for i, stt in enumerate(blk.stmts):
+                    if stt.kind == 'assign' and stt.rv.kind == 'agg' and isinstance(stt.rv.a, tuple) \
+                            and re.sub(r' \(#\d+\)', '', stt.rv.a[1]) == ty:
+                        tab.append((b, i))
+            self._clo_ord[key] = tab
+        cur = (frame.bb, frame.idx - 1)
+        return tab.index(cur) if cur in tab else None
+
     def closure_fn_for(self, st, cv):
         """(Fn, self value to pass) for a closure value cv (by value or by reference)"""
         tv = cv
@@ -2068,8 +2087,16 @@ class Executor:
                 if len(cands) > 1:
                     # macro-generated closures share one source position: use the creating function and
                     # the names of the captured variables
+                    if isinstance(tv.meta, tuple) and tv.meta and tv.meta[0] == 'ret':
+                        def norm(t):
+                            return re.sub(r'\b(?:[a-z_]+::)+', '', t.replace(' ', ''))
+                        c0 = [f for f in cands if norm(f.ret) == norm(tv.meta[1] or '')]
+                        if c0:
+                            cands = c0
+                        tv = Tree(tv.f, tv.origin, tv.ty, None)
                     creator = tv.meta[0] if isinstance(tv.meta, tuple) else tv.meta
                     names = tv.meta[1] if isinstance(tv.meta, tuple) else None
+                    ordinal = tv.meta[2] if isinstance(tv.meta, tuple) and len(tv.meta) > 2 else None
                     if creator:
                         c2 = [f for f in cands if f.name.startswith(creator + '::{closure#')] or cands
                         cands = c2
@@ -2079,6 +2106,15 @@ class Executor:
                         c3 = [f for f in cands if tuple(f.captures.get(i) for i in range(len(names))) == tuple(names)]
                         if c3:
                             cands = c3
+                    if len(set(f.text_hash for f in cands)) > 1 and ordinal is not None:
+                        # same position, same captures (macro-generated): the k-th such closure created in the
+                        # function body is its k-th nested closure of that type
+                        def num(f):
+                            mm = re.search(r'\{closure#(\d+)\}$', f.name)
+                            return int(mm.group(1)) if mm else 0
+                        cs = sorted(cands, key=num)
+                        if ordinal < len(cs):
+                            cands = [cs[ordinal]]
                     if len(set(f.text_hash for f in cands)) > 1:
                         raise Inconclusive('ambiguous closure %s (%d bodies)' % (m.group(0)[:60], len(cands)))
                 if cands:
